@@ -413,6 +413,39 @@ def main():
     out.append("(* mla/src/crypto/ecc.rs *)")
     bytestr(ecc, "DERIVE_KEY_INFO", out)
     bytestr(ecc, "ECIES_NONCE", out)
+    # ---- where the writer's secrets come from (C07): 1 = a ChaCha generator seeded by the OS
+    out.append("(* entropy sources of the writer's secrets: 1 = drawn from ChaChaRng::from_os_rng() *)")
+
+    def flag(name, ok):
+        if ok:
+            out.append("Definition %s : N := 1." % name)
+        else:
+            out.append("Definition %s : N := 0." % name)
+    nc = lambda t: re.sub(r"//[^\n]*", "", t)
+    try:
+        m = re.search(r"impl\s+std::default::Default\s+for\s+EncryptionConfig\s*\{", enc)
+        d = nc(find_fn_body(enc[m.start():], "default")[0])
+        gens = re.findall(r"let\s+mut\s+(\w+)\s*=\s*([^;]+);", d)
+        os_gens = [g for g, rhs in gens if rhs.strip() == "ChaChaRng::from_os_rng()"]
+        key_src = re.search(r"let\s+key\s*=\s*(\w+)\.random::<Key>\(\)\s*;", d)
+        nonce_src = re.search(r"let\s+nonce\s*=\s*(\w+)\.random::<\[u8;\s*NONCE_SIZE\]>\(\)\s*;", d)
+        flag("ENTROPY_key_from_os_seeded_csprng", bool(key_src and key_src.group(1) in os_gens and len(gens) == len(os_gens)))
+        flag("ENTROPY_nonce_from_os_seeded_csprng", bool(nonce_src and nonce_src.group(1) in os_gens and len(gens) == len(os_gens)))
+    except Exception as e:  # fail closed
+        out.append("(* EncryptionConfig::default: %s *)" % e)
+        out.append("Definition ENTROPY_default_untranslatable : unit := tt.")
+    try:
+        tp = nc(find_fn_body(enc, "to_persistent")[0])
+        g = re.findall(r"let\s+mut\s+(\w+)\s*=\s*([^;]+);", tp)
+        call = re.search(r"store_key_for_multi_recipients\(\s*&self\.ecc_keys\s*,\s*&self\.key\s*,\s*&mut\s+(\w+)\s*\)", tp)
+        flag("ENTROPY_wrap_rng_from_os", bool(call and [x for x in g if x[0] == call.group(1) and x[1].strip() == "ChaChaRng::from_os_rng()"]))
+        sk = nc(find_fn_body(ecc, "store_key_for_multi_recipients")[0])
+        e1 = re.search(r"let\s+mut\s+bytes\s*=\s*\[0u8;\s*32\]\s*;\s*csprng\.fill_bytes\(&mut\s+bytes\)\s*;\s*let\s+ephemeral\s*=\s*StaticSecret::from\(bytes\)\s*;", sk)
+        e2 = re.search(r"let\s+public\s*=\s*PublicKey::from\(&ephemeral\)\s*;", sk)
+        flag("ENTROPY_ephemeral_from_wrap_rng", bool(e1 and e2))
+    except Exception as e:  # fail closed
+        out.append("(* to_persistent / store_key_for_multi_recipients: %s *)" % e)
+        out.append("Definition ENTROPY_wrap_untranslatable : unit := tt.")
     out.append("")
 
     # ---- kernels, parametric in the constants they mention
